@@ -721,7 +721,8 @@ def skip_rule(rep, ctx, sfx):
         fr = TemplateFront({})
         gt = norm(fr.term(ms[0]["args"][1]))
         hf = HirFront(vfn, {}, rec_callees=[], skip_callees=[], rule_callees=[VM + "::parse_rule"])
-        vt = norm(hf.term(va[flags]["body"]))
+        vt = norm(hoisted_guards(vfn, va[flags], hf, hf.term(va[flags]["body"])))
+        gt, vt = simp_if(gt), simp_if(vt)
         r.instance(key, where(va[flags]["body"]), show(vt))
         if len(samples) < 2:
             samples.append({"program": "skip " + key, "generator": show(gt), "vm": show(vt)})
@@ -731,6 +732,36 @@ def skip_rule(rep, ctx, sfx):
             dis += 1
             r.violation(key, where(va[flags]["body"]), "skip case %s: generated `%s`, VM `%s`" % (key, show(gt), show(vt)))
     return programs, dis, samples
+
+
+def simp_if(t):
+    """`if c {Ok} else {Ok}` is Ok (a hoisted guard wraps the empty case as well)."""
+    if isinstance(t, tuple) and t and t[0] == "if" and simp_if(t[2]) == ("ok",) and simp_if(t[3]) == ("ok",):
+        return ("ok",)
+    return t
+
+
+def hoisted_guards(fn, node, hf, t):
+    """`if c { return Ok(state) }` statements that precede `node` in an enclosing block guard it: the code after
+    them runs iff !c, otherwise the function is the identity. Returns t wrapped accordingly."""
+    cx = hirq.Ctx(fn)
+    for g in reversed(cx.guards(node)):
+        if g[0] != "not":
+            continue
+        text = hf.cond(g[1])
+        if " != " in text:
+            text = text.replace(" != ", " == ", 1)
+        elif " == " in text:
+            text = text.replace(" == ", " != ", 1)
+        else:
+            text = "!(%s)" % text
+        # what the early exit returns must be the unchanged state
+        rets = [x for x in walk(g[3]["then"]) if kind(x) == "Ret"]
+        if len(rets) != 1 or rets[0].get("e") is None or norm(hf.term(rets[0]["e"])) != ("ok",):
+            hf.problems.append("early exit before the skip cases does not return the unchanged state")
+            continue
+        t = ("if", text, t, ("ok",))
+    return t
 
 
 def arm_start_line(arm):
